@@ -30,7 +30,16 @@ void TimePeriod::Start(bool runtimeCreated)
 		l_UpdateTimer->Start();
 	});
 
-	/* Pre-fill the time period for the next 24 hours. */
+	/* Pre-fill the time period for the next 24 hours. The segments restored from the state file are dropped by
+	 * UpdateRegion(); the window they were valid for must go with them: a restored valid_end beyond what the
+	 * (possibly edited) definition yields now would leave a stretch without segments that reports "outside"
+	 * and is never computed again, because the update timer continues from valid_end. */
+	{
+		ObjectLock olock(this);
+		SetValidBegin(Empty);
+		SetValidEnd(Empty);
+	}
+
 	double now = Utility::GetTime();
 	UpdateRegion(now, now + 24 * 3600, true);
 #ifdef _DEBUG
